@@ -633,7 +633,8 @@ func (i *Iter) Int() (int64, error) {
 			return 0, errors.New("corrupt input: expected float, but no more values on tape")
 		}
 		v := math.Float64frombits(i.tape.Tape[i.off])
-		if v > math.MaxInt64 {
+		if v >= math.MaxInt64 {
+			// float64(math.MaxInt64) is exactly 2^63, which does not fit.
 			return 0, errors.New("float value overflows int64")
 		}
 		if v < math.MinInt64 {
@@ -683,7 +684,8 @@ func (i *Iter) Uint() (uint64, error) {
 			return 0, errors.New("corrupt input: expected float, but no more values on tape")
 		}
 		v := math.Float64frombits(i.tape.Tape[i.off])
-		if v > math.MaxUint64 {
+		if v >= math.MaxUint64 {
+			// float64(math.MaxUint64) is exactly 2^64, which does not fit.
 			return 0, errors.New("float value overflows uint64")
 		}
 		if v < 0 {
